@@ -168,6 +168,7 @@ func (x *Exec) callInner(fr *Frame, st *State, ci ssa.CallInstruction) []string 
 	}
 	sig := c.Signature()
 	if strings.HasPrefix(key, "builtin.") {
+		x.checkCallsites(fr, st, ci, key, nil, args, argTypes)
 		return x.builtin(fr, st, ci, key[8:], args)
 	}
 	// generic instantiations share the contract of their origin
